@@ -162,6 +162,20 @@ theorem forking_close_listener (cfg : Cfg) (hw : Wf cfg) (hk : cfg.kind = .forki
     exact ⟨by simpa [hk] using hs.2.2.2.2.2.2.2.2.1, by simpa [hk] using hs.2.2.2.2.2.2.2.1⟩
   · exact ⟨(hc.done hp).2.1, (hc.done hp).2.2.2.1⟩
 
+/-- **close while a client is inside the authenticator** (slow credentials: `connect k .silent`, later `creds k c`).
+`Server.accept` puts the socket into `clients` BEFORE the authenticator runs, so `close()` reaches it: in any state, a
+tracked client whose authentication is in progress is terminated by the close (end-of-stream, released, untracked, never
+given a service instance), and credentials that arrive afterwards are read by nobody: it is not served.  (Threaded and
+one-shot servers; the extended alphabet is run against the real servers by the correspondence, all four kinds.) -/
+theorem close_reaches_authenticating_client (s : St) (k : Nat) (hk : s.cfg.kind ≠ .pool) (hcl : s.closedFlag = false)
+    (ha : (s.cli k).phase = .authing) (ht : (s.cli k).tracked = true) (c : Cred) :
+    ∃ s', step s .serverClose = .ok (s', .none) ∧ s'.listening = false ∧
+      (s'.cli k).shut = true ∧ (s'.cli k).phase = .done ∧ (s'.cli k).tracked = false ∧ (s'.cli k).srvFd = false ∧
+      (s'.cli k).inst = (s.cli k).inst ∧
+      (supply s' k c).cli k = { s'.cli k with cred := c } := by
+  refine ⟨baseClose s, by simp [step, hk], ?_, ?_, ?_, ?_, ?_, ?_, ?_⟩ <;>
+    simp [baseClose, hcl, closeEffect, ht, shutOne, ha, release, supply]
+
 /-! ### the forking server: the statement fails (finding `C17:forking:close-leaves-children-serving`) -/
 
 def witnessCfg : Cfg := { kind := .forking, auth := false, nb := 1 }
@@ -220,6 +234,16 @@ example : Terminated ((run (init sampleCfg) sample).cli 1) ∧ ((run (init sampl
   exact ⟨⟨by decide, by decide, by decide, by decide, by decide, by decide, by decide, by decide⟩, by decide⟩
 
 def oneShotSample : List Op := [.connect 1 .good, .connect 2 .good, .call 2 .ping, .gracefulClose 1]
+/-- slow credentials on a threaded server behind an authenticator: client 2 is inside the authenticator when the server is
+closed; it gets end-of-stream, its late (good) credentials do not get it served, nothing remains -/
+def slowSample : List Op := [.connect 1 .good, .connect 2 .silent, .serverClose, .creds 2 .good, .call 2 .ping]
+example : ((run (init { kind := .threaded, auth := true, nb := 1 }) (slowSample.take 2)).cli 2).phase = .authing ∧
+    ((run (init { kind := .threaded, auth := true, nb := 1 }) (slowSample.take 2)).cli 2).tracked = true ∧
+    runObs (init { kind := .threaded, auth := true, nb := 1 }) slowSample =
+      [some .ok, some .ok, some .none, some .none, some .eof] ∧
+    ((run (init { kind := .threaded, auth := true, nb := 1 }) slowSample).cli 2).inst = none ∧
+    ((run (init { kind := .threaded, auth := true, nb := 1 }) slowSample).cli 2).tracked = false := by decide
+
 /-- one-shot: the second connection waits in the listen queue and is reset when the server closes itself -/
 example : (run (init { kind := .oneshot, auth := false, nb := 1 }) oneShotSample).closedFlag = true ∧
     (run (init { kind := .oneshot, auth := false, nb := 1 }) oneShotSample).accepted = 1 ∧
